@@ -14,6 +14,11 @@ if m.startswith("r3:"):  # third round: /tmp/seed3/out/<id>/m1,m2 are kept as m5
     src = f"/tmp/seed3/out/{pid}"
     dm = {"m1": "m5", "m2": "m6"}[m]
     rnd = 3
+if m.startswith("r4:"):  # fourth round: /tmp/seed3/out/<id>/m1,m2 are kept as m7,m8
+    m = m[3:]
+    src = f"/tmp/seed3/out/{pid}"
+    dm = {"m1": "m7", "m2": "m8"}[m]
+    rnd = 4
 dst = f"/verif/seeded/{pid}/{dm}"
 os.makedirs(dst, exist_ok=True)
 shutil.copy(f"{src}/{m}.diff", f"{dst}/patch.diff")
